@@ -474,7 +474,7 @@ pub fn run(ctx: &mut Ctx) {
     ctx.rule = "command_scope: 2..3 exchanges, 3..7 instruments (spot and perpetual on shared underlyings), per instrument 0..4 orders in {open-in-flight, open, partially filled open, cancel-in-flight with/without open data}, flat/long/short position, price unknown / last trade / two-sided L1 / one-sided L1; filter in {none, exchange subsets, instrument subsets, underlying subsets} incl. keys absent from the state; command CancelOrders (issued twice) or ClosePositions through Engine::process with DefaultStrategy on healthy links. non-trivial = filter matches a strict non-empty subset AND (a matching instrument holds both a cancellable and a cancel-in-flight order, or matching positions with and without a price exist); distinct by hash of the case.".into();
     ctx.assumptions = vec!["an instrument's market price is what InstrumentDataState::price() reports (documented: volume-weighted mid of a two-sided L1, else last traded price)".into()];
     ctx.run_regressions::<CommandScope>();
-    ctx.run::<CommandScope>(ctx.tier.pick(3_000, 80_000));
+    ctx.run::<CommandScope>(ctx.tier.pick(60_000, 1_000_000));
 }
 
 pub fn replay(ctx: &mut Ctx, doc: &Value) -> bool {
